@@ -453,7 +453,7 @@ def _run_shard(shard, tier):
             res["transitions"] += len(w)
             res["distinct_nontrivial"] += 1
             res["outcomes"]["fidelity:" + ("ok" if not fails else "fail")] = res["outcomes"].get("fidelity:" + ("ok" if not fails else "fail"), 0) + 1
-            for f in fails[:1]:
+            for f in _one_per_class(fails):  # never only the first: a known finding must not hide another failure
                 res["violations"].append({"kind": "fidelity", "workload": w, "what": f"[{fmt_w(w)}] {f}", "class": _cls(f), "all": fails[:4]})
         if fw:
             res["samples"].append({"fidelity_workload": fmt_w(fw[0])})
@@ -485,12 +485,22 @@ def _run_shard(shard, tier):
                 res["distinct_nontrivial"] += 1
             key = "crash:" + ("ok" if not fails else "fail")
             res["outcomes"][key] = res["outcomes"].get(key, 0) + 1
-            for f in fails[:1]:
+            for f in _one_per_class(fails):
                 res["violations"].append({"kind": "crash", "workload": w, "workload_index": wi, "state": {k: v for k, v in st.items() if k != "dir"},
                                           "what": f"[{fmt_w(w)}] {f}", "class": _cls(f), "all": fails[:4]})
     finally:
         shutil.rmtree(base, ignore_errors=True)
     return res
+
+
+def _one_per_class(fails):
+    seen, out = set(), []
+    for f in fails:
+        c = _cls(f)
+        if c not in seen:
+            seen.add(c)
+            out.append(f)
+    return out[:30]
 
 
 def _cls(f):
